@@ -35,7 +35,9 @@ def isIdUn (w : World) (hc : HCfg) : Nat → Ty → Bool
   | 0, _ => false
   | n + 1, t =>
     match t with
-    | .int | .float | .str | .bytes | .bool | .lit _ => true
+    | .int | .float | .str | .bytes | .bool => true
+    -- `is_literal_containing_enums` -> `self.unstructure` (by run-time class); other literals: `identity`
+    | .lit vs => !litHasEnum vs
     | .wrap k t' => if hc.cfg.gen || k == .final || k == .alias then isIdUn w hc n t' else true
     | .tupleHet _ => !hc.cfg.gen
     | .td c =>
@@ -115,6 +117,8 @@ def tdUnPatches (w : World) (hc : HCfg) (n : Nat) (c : Nat) (kvs : List (HVal ×
 def planUn (w : World) (hc : HCfg) (n : Nat) : Ty → HVal → Option Cell → Prog
   | .any, v, view => planUnAny w hc n v view
   | .enum _, .leaf (.enumM e m), _ => .leaf (enumValue w e m)
+  -- a literal containing enum members: `self.unstructure` (dispatch on the run-time class); else `identity`
+  | .lit vs, v, view => if litHasEnum vs then planUnAny w hc n v view else .ident v
   | .coll k t, _, some (.coll ck xs) =>
       if hc.cfg.gen then .build false false (.coll k.unstructTo) (xs.map fun x => (.un t, x))
       else .build false false (.coll ck) (xs.map fun x => (.unAny, x))
